@@ -166,11 +166,52 @@ MUST_REACH = {"*": ["future-metrics-checked", "retry-metrics-checked", "throttle
 BUDGET = {"quick": 150.0, "thorough": 600.0}
 
 
+def scn_combinators(ctx):
+    """'... and combinators': after a few f_* calls have finished and every future has been dropped,
+    the executors-in-use gauge equals the number of executors that are still alive, and the
+    futures-in-progress gauges are back to zero."""
+    import gc
+    import prometheus_client as P
+    from more_executors import futures as F
+    from more_executors._impl.metrics import metrics
+
+    ctx.check("prometheus-metrics-live", type(metrics).__name__ == "PrometheusMetrics", type(metrics).__name__)
+    P.reset()
+    TYPES = ("map", "flat_map", "sync", "timeout", "retry", "poll", "throttle")
+    which = ("f_map", "f_flat_map", "f_sequence", "f_apply", "f_zip", "f_or")[ctx.choice(6, "combinator")]
+    n = 1 + ctx.choice(2, "calls")
+    for i in range(n):
+        a, b = F.f_return(i), F.f_return(i + 1)
+        if which == "f_map":
+            out = F.f_map(a, lambda x: x)
+        elif which == "f_flat_map":
+            out = F.f_flat_map(a, lambda x: F.f_return(x))
+        elif which == "f_sequence":
+            out = F.f_sequence([a, b])
+        elif which == "f_apply":
+            out = F.f_apply(F.f_return(lambda x, y: (x, y)), a, b)
+        elif which == "f_zip":
+            out = F.f_zip(a, b)
+        else:
+            out = F.f_or(a, b)
+        ctx.check("combinator-finishes", out.done(), which)
+        del out, a, b
+    gc.collect()
+    ctx.check("gauges-never-negative", not P.NEGATIVE, P.NEGATIVE[:3])
+    # nothing made by these calls is alive any more: whatever the gauge counted for them must be gone
+    leaked = dict((t, P.get("exec_inprogress", t, "internal")) for t in TYPES if P.get("exec_inprogress", t, "internal"))
+    ctx.check("exec_inprogress-after-" + which, not leaked,
+              "%d call(s) of %s, everything dropped: executors-in-use gauge still counts %s (executor='internal')" % (n, which, leaked))
+    ctx.reach("combinator-gauges-checked")
+    return True
+
+
 def plan(tier, seed):
     q = tier == "quick"
     items = []
     for k in ("retry", "throttle", "poll", "timeout", "cancel_on_shutdown", "map", "throttle+retry"):
         items.append(dict(scenario="metrics", params=dict(kind=k, steps=(4 if k == "throttle+retry" else 5) if q else (5 if k == "throttle+retry" else 6)), bounds=dict(P=0)))
+    items.append(dict(scenario="combinators", params=dict(), bounds=dict(P=0)))
     if not q:
         for k in ("retry", "throttle"):
             items.append(dict(scenario="metrics", params=dict(kind=k, steps=3), bounds=dict(P=1)))
